@@ -211,6 +211,17 @@ def solve_cases(tier, seed):
     return out
 
 
+def shuf(r, rows):
+    """a listing of the same matrix with rows that are not sorted: every row shuffled, or (half of the time) only the rows
+    from a random position on listed in descending column order while the leading rows stay sorted -- a constructor that
+    looks at some rows only to decide whether it has to sort (seeded C13-5) must still see the same matrix"""
+    if r.random() < 0.5 or len(rows) < 2: return gen.shuffle_rows(r, rows)
+    s0 = r.randint(1, len(rows) - 1)
+    if r.random() < 0.5: s0 = max(s0, len(rows) - 1 - r.randint(0, 1))        # only the last one or two rows
+    out = [list(rw) if i < s0 else list(reversed(rw)) for i, rw in enumerate(rows)]
+    return out if out != [list(rw) for rw in rows] else gen.shuffle_rows(r, rows)
+
+
 def pc_cases(tier, seed):
     """pairs (shuffled, sorted) of the same matrix for each preconditioner class"""
     r = random.Random(seed * 1000 + 19)
@@ -227,7 +238,7 @@ def pc_cases(tier, seed):
     for it in range(N):
         n = r.choice([3, 4, 5, 6, 8]) if it % 5 else r.randint(9, 14)
         rows = gen.nonsym_dd(r, n) if r.random() < 0.5 else gen.spd_mmatrix(r, n, kind=r.choice(["path", "grid", "graph"]))
-        sh = gen.shuffle_rows(r, rows)
+        sh = shuf(r, rows)
         for kind in PC_KINDS:
             out.append(("p%d" % len(out), kind, "pcorder", "pc %s %s" % (kind, fmt_crs(n, n, sh)), "pc %s %s" % (kind, fmt_crs(n, n, rows)),
                         dict(n=n)))
@@ -235,7 +246,7 @@ def pc_cases(tier, seed):
         # diagonal block and every sub-block pivot is non-zero
         bs = r.choice([2, 2, 3]); nb = r.choice([2, 3, 4]); n2 = bs * nb
         rows2 = gen.nonsym_dd(r, n2, density=r.choice([0.3, 0.6, 1.0]))
-        sh2 = gen.shuffle_rows(r, rows2)
+        sh2 = shuf(r, rows2)
         for kind in PC2_KINDS:
             out.append(("p%d" % len(out), kind, "pcorder2", "pc2 %s %d %s" % (kind, bs, fmt_crs(n2, n2, sh2)),
                         "pc2 %s %d %s" % (kind, bs, fmt_crs(n2, n2, rows2)), dict(n=n2, bs=bs)))
@@ -255,7 +266,7 @@ def pc_cases(tier, seed):
                 if j != i and r.random() < 0.5: rw[j] = dy(r, nz=True)
             rw[i] = sum(abs(v) for v in rw.values()) + F(r.choice([1, 2, 3]), r.choice([1, 2]))
             rows3.append(sorted(rw.items()))
-        sh3 = gen.shuffle_rows(r, rows3)
+        sh3 = shuf(r, rows3)
         for q in range(4):
             k = (4 * it + q) % (len(RT_CLASSES) * len(RT_RELAX))
             cls, rel = RT_CLASSES[k % len(RT_CLASSES)], RT_RELAX[(k // len(RT_CLASSES)) % len(RT_RELAX)]
